@@ -393,6 +393,16 @@ func ensureTestBinMode(pkgPath string, sched bool) (string, string) {
 		real[filepath.Join(repoDir, "internal/xruntime/xruntime.go")] = rp
 	}
 	if sched {
+		// the package's own test files are compiled against the real sync/atomic types and are not needed by the replay
+		// test: leave them out of this build (an overlay entry with an empty path deletes the file)
+		relDir := strings.TrimPrefix(strings.TrimPrefix(pkgPath, repoModule), "/")
+		if tests, _ := filepath.Glob(filepath.Join(repoDir, relDir, "*_test.go")); tests != nil {
+			for _, t := range tests {
+				if _, ok := real[t]; !ok {
+					real[t] = ""
+				}
+			}
+		}
 		if err := schedOverlay(real, dir); err != nil {
 			testBins[pkg], testBinErr[pkg] = "", "rewrite for native schedule replay failed: "+err.Error()
 			return "", testBinErr[pkg]
@@ -411,7 +421,7 @@ func ensureTestBinMode(pkgPath string, sched bool) (string, string) {
 	cmd.Env = goEnv()
 	out, err := cmd.CombinedOutput()
 	if err != nil {
-		testBins[pkg], testBinErr[pkg] = "", "build failed: "+firstLine(string(out))
+		testBins[pkg], testBinErr[pkg] = "", "build failed: "+firstLines(string(out), 4)
 		return "", testBinErr[pkg]
 	}
 	testBins[pkg] = bin
@@ -672,4 +682,13 @@ func runSolver(bin string, args []string) string {
 		}
 	}
 	return "unknown"
+}
+
+
+func firstLines(s string, n int) string {
+	ls := strings.Split(strings.TrimSpace(s), "\n")
+	if len(ls) > n {
+		ls = ls[:n]
+	}
+	return strings.Join(ls, " | ")
 }
